@@ -17,6 +17,7 @@ import Sgz.Model.Container
 import Sgz.Model.Header
 import Sgz.Model.Coords
 import Sgz.Model.HeaderReads
+import Sgz.Model.Derived
 /-!
 Line-protocol driver over the executable model (`Sgz/Model`, Mathlib-free).  One request per line, one answer per
 line.  The Python harness sends the same request to the real implementation and diffs canonical answers.
@@ -463,6 +464,36 @@ def handleHeader (ws : List String) : String :=
     | none => "bad-op"
   | _ => "bad-op"
 
+def fieldsOf (xs : List Int) : Option Header.Fields :=
+  match xs with
+  | [a, b, c, d, e, f, g, h, i, j, k, l, m, n, o, p, q, r, s] =>
+    some { nHeaderBlocks := a.toNat, nSamples := b.toNat, nXl := c.toNat, nIl := d.toNat, zStart := e,
+           xl0 := f, il0 := g, interval := h, dXl := i, dIl := j, q := k.toNat, b0 := l.toNat, b1 := m.toNat,
+           b2 := n.toNat, dataBlocks := o.toNat, arrayBytes := p.toNat, nArrays := q.toNat, tracecount := r.toNat,
+           version := s.toNat }
+  | _ => none
+
+/-- `dhdr crop <19 source fields> I0 I1 X0 X1 Z0 Z1 STRUCTURED POP` / `dhdr reblock <19 source fields>`: the 19 header
+words (offsets 0,4,…,72) of the derived file -/
+def handleDerived (ws : List String) : String :=
+  let words (f : Header.Fields) := joinNat ((Header.writes f).map (·.2))
+  match ws with
+  | "crop" :: rest =>
+    match ints rest with
+    | some xs =>
+      match fieldsOf (xs.take 19), xs.drop 19 with
+      | some f, [i0, i1, x0, x1, z0, z1, st, pop] =>
+        words (Derived.cropHeader f ⟨i0.toNat, i1.toNat, x0.toNat, x1.toNat, z0.toNat, z1.toNat⟩ (st == 1) pop.toNat)
+      | _, _ => "bad-op"
+    | none => "bad-op"
+  | "reblock" :: rest =>
+    match ints rest with
+    | some xs => match fieldsOf xs with
+      | some f => words (Derived.reblockHeader f)
+      | none => "bad-op"
+    | none => "bad-op"
+  | _ => "bad-op"
+
 def digestInt (xs : List Int) : Nat := digestNat (xs.map fun v => (v + 2147483648).toNat)
 
 /-- `hhist GRID IS3D STRUCTURED FOOTER STRIDE LEN ILFIELD ; c:d c:d … ; hole hole … ; op ; op …` with ops `hdr T`, `hdrall T`, `tfv F`,
@@ -508,6 +539,7 @@ def handle (line : String) : String :=
   if line.startsWith "hwtable " then handleHwTable (line.drop 8).toString else
   match (line.trimAscii.toString.splitOn " ").filter (· ≠ "") with
   | "read" :: rest => handleRead rest
+  | "dhdr" :: rest => handleDerived rest
   | "ver" :: rest => handleVer rest
   | "cfg" :: rest => handleCfg rest
   | "pipe" :: rest => handlePipe rest
